@@ -246,6 +246,12 @@ class StandardRequestHandler(ControlRequestHandler):
                         m.d.comb += get_descriptor_handler.start.eq(1)
                         m.d.usb += expecting_ack.eq(1)
 
+                    # Handshakes are broadcast to every endpoint. If the host issues a new token, it's moved on
+                    # without ACKing our packet; a later ACK belongs to another endpoint's data, and our packet
+                    # will be requested again.
+                    with m.Elif(interface.tokenizer.new_token):
+                        m.d.usb += expecting_ack.eq(0)
+
                     # Each time we receive an ACK, advance in our descriptor.
                     # This allows us to send descriptors with >64B of content.
                     with m.If(interface.handshakes_in.ack & expecting_ack):
